@@ -88,6 +88,14 @@ func cmdMarshal(in *bufio.Scanner, out *bufio.Writer) error {
 	return in.Err()
 }
 
+func isAnnWrapper(t reflect.Type) bool {
+	if t.Kind() != reflect.Struct {
+		return false
+	}
+	f, ok := t.FieldByName("A")
+	return ok && f.Type == reflect.TypeOf([]ion.SymbolToken{})
+}
+
 type unmarshalCase struct {
 	Bytes  Bytes    `json:"bytes"`
 	Types  []string `json:"types"`
@@ -96,6 +104,7 @@ type unmarshalCase struct {
 }
 
 type unmarshalRes struct {
+	Stale string `json:"stale"` // non-empty: decoding into a prefilled annotation wrapper gave another result than into a fresh one
 	Type  string `json:"type"`
 	Err   string `json:"err"`
 	Panic string `json:"panic"`
@@ -156,6 +165,23 @@ func cmdUnmarshal(in *bufio.Scanner, out *bufio.Writer) error {
 				r.Panic = site + ": " + err.Error()
 			} else {
 				r.Err = errString(err)
+			}
+			// an annotation wrapper that already holds annotations: what it holds afterwards are the value's
+			// annotations, exactly as for a fresh wrapper
+			if isAnnWrapper(t) && !pan && err == nil {
+				safely(func() error {
+					pv := reflect.New(t)
+					stale := "stale"
+					pv.Elem().FieldByName("A").Set(reflect.ValueOf([]ion.SymbolToken{{Text: &stale, LocalSID: ion.SymbolIDUnknown}}))
+					if e := ion.Unmarshal([]byte(c.Bytes), pv.Interface()); e == nil {
+						a, _ := json.Marshal(r.GV)
+						b, _ := json.Marshal(walk(pv.Elem()))
+						if string(a) != string(b) {
+							r.Stale = "a wrapper that already held annotations does not end up as a fresh one does"
+						}
+					}
+					return nil
+				})
 			}
 			o.Res = append(o.Res, r)
 		}
